@@ -4,7 +4,8 @@
 seed="$1"; id="$2"; tier="${3:-quick}"
 wt=/tmp/seedrun-$seed-$$
 git -C /repo worktree add -q --detach $wt HEAD || exit 2
-trap 'git -C /repo worktree remove --force '$wt' 2>/dev/null; rm -f /verif/bin/vcheck*-alt-*' EXIT
+tag=$(echo "$wt" | md5sum | cut -c1-8)
+trap 'git -C /repo worktree remove --force '$wt' 2>/dev/null; rm -f /verif/bin/vcheck*-alt-'$tag'* /verif/harness/.alt/'$tag'.*' EXIT
 if ! git -C $wt apply /verif/seeded/$seed/patch.diff; then echo "SEED-APPLY-FAILED $seed"; exit 3; fi
 cd /verif
 out=$(VERIF_REPO=$wt VERIF_DIR_EVIDENCE_SKIP=1 ./check $id $tier 2>&1); rc=$?
